@@ -4,7 +4,7 @@
    that does not divide by the slope; Proofs/PNormRInt.v proves that this closed form is the
    Riemann integral RInt (fun t => Rabs (l t) ^ p) x0 x1 of the interpolant l. *)
 From Coq Require Import QArith Qabs Qminmax List.
-From Persim Require Import Lib.PL.
+From Persim Require Import Lib.Kth Lib.PL.
 Import ListNotations.
 Open Scope Q_scope.
 
